@@ -511,8 +511,8 @@ func TestVerifC11Session(t *testing.T) {
 	if n < 8 {
 		n = 8
 	}
-	if n > 1200 {
-		n = 1200
+	if n > 2400 {
+		n = 2400
 	}
 	sem := make(chan struct{}, 48)
 	var wg sync.WaitGroup
@@ -635,9 +635,7 @@ func TestVerifC11SessionConc(t *testing.T) {
 						}
 						cmu.Unlock()
 						out.Stat("sessconc:mail:" + c11Reply(err))
-						if c11Reply(err) == "554" {
-							out.Note("554: " + err.Error() + " " + opl)
-						}
+
 						if err != nil {
 							continue
 						}
